@@ -55,7 +55,7 @@ add("C15","exploration","runtime monitor: reference-model comparison of ProofsSt
     "Real mint histories with swaps, mints, failed/pending/resolved melts, internal settlement, P2PK spends, rotations, restarts; after every operation a mixed query (known/unknown/repeated/malformed incl. storage-pattern strings, PRNG order) is compared entry by entry with the model (state, order, echo, witness; restored amount/id/C_/e/s); byte-identical /v1/restore and /v1/checkstate requests through the HTTP router before and after a state change must differ accordingly.",
     T, "3/C15")
 add("C16","exploration","runtime monitor: big-integer reference balances and limit decisions vs. IssuedEcash/RedeemedEcash/TotalBalance/RetrieveMintInfo and quote accept/reject",
-    "Real mint under limit configurations at the boundaries; histories move the balance across the limit in both directions; refusal is demanded above the limits in unbounded arithmetic (also for the mint's own invoices), nuts.4.disabled must equal (balance >= max); every sixth configuration holds totals beyond 2^53; the totals are also asked from the admin RPC server (mint/manager) over its unix socket. Beyond the stated quantifier the scheduler enumerates the preemption-bounded interleavings of a mint request and a swap request carrying one B_, judged by issued total = signatures handed out and by restore.",
+    "Real mint under limit configurations at the boundaries; histories move the balance across the limit in both directions; refusal is demanded above the limits in unbounded arithmetic (also for the mint's own invoices), nuts.4.disabled must equal (balance >= max); every sixth configuration holds totals beyond 2^53; the totals are also asked from the admin RPC server (mint/manager) over its unix socket; the real mint binary (cmd/mint) is built from the tree and started with the limits in its environment, its decisions judged over loopback HTTP. Beyond the stated quantifier the scheduler enumerates the preemption-bounded interleavings of a mint request and a swap request carrying one B_, judged by issued total = signatures handed out and by restore.",
     T, "3/C16")
 add("C17","exploration","runtime monitor: wallet-world conservation and balance oracle from the transport record and mint-side proof states after every wallet operation",
     "2-3 real wallets and 1-2 real mints; after every operation reported/pending balances, duplicate secrets, no-loss and conservation equations are evaluated from the byte-level transport record and mint-side states; a swap that leaves more at the mint than the fee the mint charges for its inputs is a loss. A directed sequence per history makes every kind of operation once, another one breaks the connection before a swap and before a melt request reach the mint (nothing may be lost, the retry goes through); the listed finding is reproduced at every seed.",
